@@ -486,3 +486,101 @@ def definedness_differs(sa, sb, sigmas):
         if {da, db} == {"defined", "undefined"}:
             return s0, da, db
     return None
+
+
+# ------------------------------------------------------------------ exactification of float folds
+# Constant arithmetic folds in floating point ('1 / 3' -> 0.3333333333333333).  Instead of
+# comparing with a tolerance afterwards, the monitor works out which exact rational the new
+# constant stands for (the exact result of an operation on two constants of the rewritten
+# node that rounds to it) and evaluates every later shadow with the exact value in its
+# place.  Comparisons then stay exact; tolerance remains only as a fallback for folds that
+# could not be resolved.
+EXACT = {}
+
+
+def exactify(s):
+    """shadow with every float constant that a resolved fold produced replaced by the exact
+    rational it stands for"""
+    if s is None or not EXACT:
+        return s
+    k, p, l, r = s
+    if k == "Constant":
+        v = p[1]
+        if isinstance(v, Fraction) and v in EXACT and "float" in p[0]:
+            return (k, (p[0], EXACT[v]), None, None)
+        return s
+    nl, nr = exactify(l), exactify(r)
+    if nl is l and nr is r:
+        return s
+    return (k, p, nl, nr)
+
+
+def new_floats(before, after):
+    """exact values (Fractions of the doubles) of float-typed constants of `after` that do not
+    occur, up to sign, among the float-typed constants of `before`"""
+    from .shadow import constants
+    from collections import Counter
+
+    def floats(x):
+        return Counter(abs(p[1]) for p in constants(x) if "float" in p[0] and isinstance(p[1], Fraction))
+
+    cb, ca = floats(before), floats(after)
+    out = []
+    for v, n in ca.items():
+        if cb.get(v, 0) < n:
+            out.append(v)
+    return out
+
+
+def _const_values(s, out):
+    from .shadow import constants
+
+    for tag, v in constants(s):
+        if isinstance(v, Fraction):
+            out.append(EXACT.get(v, v) if "float" in tag else v)
+    return out
+
+
+def resolve_folds(region, before, after):
+    """Try to give every new float constant of `after` its exact value: the exact result of
+    c1 op c2 (op in + - * / ^, either order, optionally negated) over the constants of `region`
+    (the rewritten node before the rewrite) that agrees with the double to 1e-14 relative.
+    Returns (number of new floats, number resolved)."""
+    news = new_floats(before, after)
+    if not news:
+        return 0, 0
+    consts = _const_values(region, [])[:24]
+    resolved = 0
+    for F in news:
+        if F in EXACT or -F in EXACT:
+            resolved += 1
+            continue
+        cands = set()
+        for i, a in enumerate(consts):
+            for j, b in enumerate(consts):
+                if i == j:
+                    continue
+                rs = [a + b, a - b, a * b]
+                if b != 0:
+                    rs.append(a / b)
+                if b.denominator == 1 and abs(b) <= 64 and not (a == 0 and b < 0):
+                    try:
+                        rs.append(a ** int(b))
+                    except Exception:
+                        pass
+                for r in rs:
+                    if _big(r):
+                        continue
+                    for q in (r, -r):
+                        if q != F and abs(q - F) <= Fraction(1, 10 ** 14) * abs(F):
+                            cands.add(q)
+                        elif q == F:
+                            cands.add(q)
+        # only the magnitude matters for matching (new_floats works up to sign)
+        mags = {abs(q) for q in cands}
+        if len(mags) == 1:
+            q = mags.pop()
+            EXACT[F] = q
+            EXACT[-F] = -q
+            resolved += 1
+    return len(news), resolved
